@@ -221,9 +221,9 @@ theorem sameSuggestion_refl (x : Item) : sameSuggestion x x = true := by
 theorem sameSuggestion_trans {x y z : Item} (h1 : sameSuggestion x y = true)
     (h2 : sameSuggestion y z = true) : sameSuggestion x z = true := by
   simp only [sameSuggestion, Bool.and_eq_true, decide_eq_true_eq] at *
-  obtain ⟨⟨a1, a2⟩, a3⟩ := h1
-  obtain ⟨⟨b1, b2⟩, b3⟩ := h2
-  exact ⟨⟨a1.trans b1, a2.trans b2⟩, a3.trans b3⟩
+  obtain ⟨⟨⟨a1, a2⟩, a3⟩, a4⟩ := h1
+  obtain ⟨⟨⟨b1, b2⟩, b3⟩, b4⟩ := h2
+  exact ⟨⟨⟨a1.trans b1, a2.trans b2⟩, a3.trans b3⟩, a4.trans b4⟩
 
 theorem dedupFrom_twin (l : List Item) (prev : Item) :
     ∀ x ∈ prev :: l, ∃ y ∈ dedupFrom prev l, sameSuggestion y x = true := by
